@@ -89,6 +89,20 @@ func (p *DecodeProvider) Run(ctx context.Context, deps core.ProviderDeps) (err e
 		return errors.WithMessage(err, "decoder construction failed")
 	}
 	var ammoNum int
+	if mpr, ok := multipassReader.(*ioutil2.MultiPassReader); ok {
+		// Source without any ammo (empty, whitespaces only) should not be read forever.
+		decodedOnPrevPassEnd := -1
+		mpr.BeforeNextPass = func() error {
+			if ctx.Err() != nil {
+				return io.EOF
+			}
+			if ammoNum == decodedOnPrevPassEnd {
+				return errors.New("no ammo decoded during whole source pass")
+			}
+			decodedOnPrevPassEnd = ammoNum
+			return nil
+		}
+	}
 	for ; p.conf.Limit <= 0 || ammoNum < p.conf.Limit; ammoNum++ {
 		ammo := p.InputPool.Get()
 		err = decoder.Decode(ammo)
